@@ -36,7 +36,13 @@ def base_documents(ctx, n):
                 # move the LAST fragment (which spreads no other) into an imported file
                 fr = frs[-1]
                 d2 = {"defs": [G.imp([".", "lib", "f.graphql"], [fr["name"]])] + [x for x in d["defs"] if x is not fr]}
-                files = [{"path": ["p", "root.graphql"], "doc": d2}, {"path": ["p", "lib", "f.graphql"], "doc": {"defs": [fr]}}]
+                lib = [fr]
+                rest = [x for x in frs if x is not fr]
+                if rest and ctx.rng.chance(1, 2):
+                    # the imported file imports back from the root file (a cycle through the file being checked): still valid
+                    back = G.imp(["..", "root.graphql"], None if ctx.rng.chance(1, 3) else [ctx.rng.choice(rest)["name"]])
+                    lib = [back, fr]
+                files = [{"path": ["p", "root.graphql"], "doc": d2}, {"path": ["p", "lib", "f.graphql"], "doc": {"defs": lib}}]
         docs.append({"schema": s["name"], "files": files, "root": ["p", "root.graphql"]})
     return scs, docs
 
